@@ -59,6 +59,8 @@ fixed = [
       what='fixed: property=C14 439b412 Operator / Quantifier members stayed writable after initialisation (Operator.Negation.arity = 5 succeeded): LexicalEnum used a guard keyed on LexicalAbcMeta._readonly, which is never set; NoSetAttr._clschecker also passed its arguments in the wrong order'),
  dict(property='C02', status='fixed', commit='4d7848e', key='C02.R8/Rules.NecessityDesignated',
       what="fixed: property=C02 4d7848e K/D/T/S4/S5 (and the many-valued modal logics) reported 'La, Mb, Mc, M((d & Lb1) & Mc1) |- e' invalid with an unsaturated open branch whose model is not a countermodel: the box rule only served least-applied-to nodes, and once the least-applied one had no world left the others were never taken up again"),
+ dict(property='C14', status='fixed', commit='02adc18', key='C14.R3/readonly/Operated: re-assigning an attribute with an equal but different object',
+      what="fixed: property=C14 02adc18 (~A).operator = 'Negation' was accepted and put a str in place of the operator (Atomic(0,0).index = 0.0 a float in place of the index): a finished item stored any value that compared equal to the current one"),
 ]
 CLASSICAL = ('CPL', 'CFOL', 'K', 'D', 'T', 'S4', 'S5')
 def triage(prop, f):
